@@ -117,6 +117,7 @@ type Worker struct {
 	pathReach []string
 	armBudget int64
 	mergeCheck bool
+	pathViol   int // violations recorded on the current path (such a path is not used as a witness)
 	softGoal  bool // the next feasibility queries are branch/merge pre-checks (not obligations)
 	nq        int
 	varsMemo  map[int32]map[int32]bool
@@ -1398,7 +1399,9 @@ func (w *Worker) indexAddr(fr *Frame, in *ssa.IndexAddr) Value {
 	tt := w.tt
 	wd := int(it.w)
 	var oob *Term
-	if isSigned(in.Index.Type()) {
+	if wd < 64 && uint64(len(elems)) > mask(wd) {
+		oob = tt.False // the index type cannot reach the length
+	} else if isSigned(in.Index.Type()) {
 		oob = tt.Or(tt.Cmp(OSlt, it, tt.BV(0, wd)), tt.Cmp(OSle, tt.BV(uint64(len(elems)), wd), it))
 	} else {
 		oob = tt.Cmp(OUle, tt.BV(uint64(len(elems)), wd), it)
@@ -1475,8 +1478,10 @@ func (w *Worker) index(fr *Frame, in *ssa.Index) Value {
 			}
 			return copyVal(x[i])
 		}
-		oob := w.tt.Cmp(OUle, w.tt.BV(uint64(len(x)), int(it.w)), it)
-		w.checkPanic(oob, "index out of range (symbolic)")
+		if int(it.w) >= 64 || uint64(len(x)) <= mask(int(it.w)) {
+			oob := w.tt.Cmp(OUle, w.tt.BV(uint64(len(x)), int(it.w)), it)
+			w.checkPanic(oob, "index out of range (symbolic)")
+		}
 		return w.symLoad(&symPtr{elems: x, idx: it})
 	case string:
 		i := w.concretize(it, "string index")
